@@ -21,5 +21,5 @@ def run(run):
     ]
     for name in base.tasks():
         run.explore("%s pairs" % name, "mc.generic", "shard_range",
-                    generic.shard_plan(name, "pair", run.tier, run.phase, 64))
+                    generic.shard_plan(name, "range", run.tier, run.phase, 64))
     run.require_nonvacuous("empty_side", "identical")
